@@ -73,6 +73,28 @@ def output_content(out):
     return lits, comments
 
 
+def check_content(prog, out_text, case, with_comments=True):
+    """String literals, DATA string items and comment texts of the AST are found byte for byte in the emitted text."""
+    lits, comments = ast_content(prog)
+    olits, ocomments = output_content(out_text)
+    need = Counter()
+    for l in lits:
+        if isinstance(l, tuple):
+            need[l[1] if l[2] else l[1] + "? "] += 1
+        else:
+            need[l] += 1
+    for text, n in need.items():
+        if olits[text] < n:
+            raise Violation("string literal / DATA item %r of the source occurs %d time(s) in the output, %d expected (blanks inside literals are content)"
+                            % (text, olits[text], n), case)
+    if not with_comments:
+        return
+    joined = "\n".join(ocomments)
+    for c in comments:
+        if c not in joined:
+            raise Violation("comment text %r of the source is not preserved in the output" % c, case)
+
+
 def check_case(case):
     opts = dict(case.get("options", {}))
     results = []
@@ -89,22 +111,7 @@ def check_case(case):
             raise Violation("layout %d converts to different output than the canonical layout" % i,
                             {"sources": [case["sources"][0], case["sources"][i]], "options": opts})
     if ref[0] == "ok" and "prog" in case:
-        lits, comments = ast_content(case["prog"])
-        olits, ocomments = output_content(ref[1])
-        need = Counter()
-        for l in lits:
-            if isinstance(l, tuple):
-                need[l[1] if l[2] else l[1] + "? "] += 1
-            else:
-                need[l] += 1
-        for text, n in need.items():
-            if olits[text] < n:
-                raise Violation("string literal / DATA item %r of the source occurs %d time(s) in the output, %d expected (blanks inside literals are content)"
-                                % (text, olits[text], n), {"sources": case["sources"][:1], "prog": case["prog"], "options": opts})
-        joined = "\n".join(ocomments)
-        for c in comments:
-            if c not in joined:
-                raise Violation("comment text %r of the source is not preserved in the output" % c, {"sources": case["sources"][:1], "prog": case["prog"], "options": opts})
+        check_content(case["prog"], ref[1], {"sources": case["sources"][:1], "prog": case["prog"], "options": opts})
     return None
 
 
